@@ -13,6 +13,7 @@ SSPEC = os.path.join(vlib.SPEC, "stepper")
 
 # which recorded families decide which property
 FAMILIES_FOR = {
+    "C02": ["lowlevel"],
     "C03": ["core", "adversarial"],
     "C04": ["adversarial", "core"],
     "C05": ["teval"],
